@@ -39,19 +39,23 @@ def rawSetList (cfg : Cfg) (f : Forest) (m : Meta) (its : Items) (key : Int) (in
         | .ref id, some oid => id == oid
         | _, _ => false
       if same then .ok (f, false) else
-      let r := evalVE cfg f (some m.id) false (m.path ++ [Key.i index]) ve
+      let r := evalVE cfg f none (some m.id) false m.part (m.path ++ [Key.i index]) ve
       let f2 := r.1.mapAt m.id (fun _ xs => setKey (Key.i pos) r.2 xs)
       -- detach the old value: parent only (list.py:426-428)
       .ok (f2.addRoot (old.setParent none), true)
   else if index < len then
-    let r := evalVE cfg f (some m.id) false (m.path ++ [Key.i index]) ve
+    let r := evalVE cfg f none (some m.id) false m.part (m.path ++ [Key.i index]) ve
     let pos := pyInsertPos index its.length
     .ok (r.1.mapAt m.id (fun m' xs =>
           let ys := insertAt pos r.2 xs
           if cfg.reindexOnMutate then reindex m' ys else ys), true)
   else
-    let r := evalVE cfg f (some m.id) false (m.path ++ [Key.i index]) ve
+    let r := evalVE cfg f none (some m.id) false m.part (m.path ++ [Key.i index]) ve
     .ok (r.1.mapAt m.id (fun _ xs => renumber (xs ++ [(Key.i 0, r.2)])), true)
+
+def childNodes (its : Items) : List Tree := (its.map (·.2)).filter Tree.isNode
+
+def addRoots (f : Forest) (ts : List Tree) : Forest := ts.foldl Forest.addRoot f
 
 /-- `Dict._set_item_without_permission_check` (dict.py:533-583), also the attribute container of
 an object (object.py:896-900). -/
@@ -66,19 +70,28 @@ def rawSetDict (cfg : Cfg) (f : Forest) (m : Meta) (its : Items) (key : Key) (ve
     | .obj cls => !(clsFields cls).contains key
     | _ => false
   if badKey then .error .key else
-  -- detach the old value first: parent None, path root (dict.py:557-560)
-  let f1 := match old with
-    | some (.node om oits) =>
-      (f.mapAt m.id (fun _ xs => setKey key (.leaf .missing) xs)).addRoot
-        (((Tree.node om oits).setParent none).setPath [])
-    | _ => f
+  -- detach the old value first: parent None, path root (dict.py:557-560); it still occupies
+  -- its slot until the new value is stored
+  let detached : Option Tree := match old with
+    | some (.node om oits) => some (((Tree.node om oits).setParent none).setPath [])
+    | _ => none
+  let f1 := match detached with
+    | some d => f.mapAt m.id (fun _ xs => setKey key d xs)
+    | none => f
   let isObj := isObjKind m.kind
   if ve.isMissing && !isObj then
-    if hasKey its key then .ok (f1.mapAt m.id (fun _ xs => eraseKey key xs), true) else .ok (f1, false)
+    if hasKey its key then
+      .ok (addRoots (f1.mapAt m.id (fun _ xs => eraseKey key xs)) detached.toList, true)
+    else .ok (f1, false)
   else
     let ve' := if ve.isMissing then VE.atom .none else ve       -- field default
-    let r := evalVE cfg f1 (some m.id) isObj (m.path ++ [key]) ve'
-    .ok (r.1.mapAt m.id (fun _ xs => setKey key r.2 xs), true)
+    let r := evalVE cfg f1 (detached.bind Tree.id?) (some m.id) isObj m.part (m.path ++ [key]) ve'
+    let f3 := r.1.mapAt m.id (fun _ xs => setKey key r.2 xs)
+    -- the old value becomes a root of its own unless the new value took it in
+    let consumed := match detached.bind Tree.id? with
+      | some oid => r.2.ids.contains oid
+      | none => false
+    .ok (if consumed then f3 else addRoots f3 detached.toList, true)
 
 /-- dispatch on the kind of the container `t`. -/
 def rawSet (cfg : Cfg) (f : Forest) (t : Nat) (key : Key) (ins : Bool) (ve : VE) : Except Err (Forest × Bool) :=
@@ -86,7 +99,7 @@ def rawSet (cfg : Cfg) (f : Forest) (t : Nat) (key : Key) (ins : Bool) (ve : VE)
   | some (.node m its) =>
     match m.kind, key with
     | .list, .i idx => rawSetList cfg f m its idx ins ve
-    | .list, .s _ => .error .type
+    | .list, .s _ => .error .assertion      -- list.py:400 `assert isinstance(key, numbers.Integral)`
     | _, k => rawSetDict cfg f m its k ve
   | _ => .error .key
 
@@ -108,14 +121,18 @@ every update target. Only `List._on_change` touches the tree. -/
 def notify (f : Forest) (targets : List Nat) : Forest :=
   ((targets.flatMap (chainFrom f (f.ids.length + 1))).eraseDups).foldl onChangeAt f
 
-def childNodes (its : Items) : List Tree := (its.map (·.2)).filter Tree.isNode
+/-- how a container detaches a value that leaves it: a list resets the parent only
+(list.py:426-428), a dict resets parent and path (dict.py:557-560). -/
+def detachFrom (kind : Kind) (t : Tree) : Tree :=
+  match kind with
+  | .list => t.setParent none
+  | _ => (t.setParent none).setPath []
 
-def addRoots (f : Forest) (ts : List Tree) : Forest := ts.foldl Forest.addRoot f
-
-/-- builtin `clear()` / `popitem()` / `del` of the payload: the removed children keep their
-beliefs and become roots of their own. -/
-def dropAll (f : Forest) (t : Nat) (its : Items) : Forest :=
-  addRoots (f.mapAt t (fun _ _ => [])) (childNodes its)
+/-- builtin `clear()` of the payload. Unpatched, the removed children keep their beliefs
+(F33); patched, they are detached. Either way they become roots of their own. -/
+def dropAll (cfg : Cfg) (f : Forest) (m : Meta) (its : Items) : Forest :=
+  addRoots (f.mapAt m.id (fun _ _ => []))
+    ((childNodes its).map (fun c => if cfg.detachOnRemove then detachFrom m.kind c else c))
 
 def insertByRank {α : Type} (x : Int × α) : List (Int × α) → List (Int × α)
   | [] => [x]
@@ -140,7 +157,8 @@ def permute (cfg : Cfg) (f : Forest) (t : Nat) (g : Items → Items) : Forest :=
 /-- `List.__delitem__` body after the guards (list.py:598-607). -/
 def rawDelList (cfg : Cfg) (f : Forest) (m : Meta) (its : Items) (pos : Nat) : Forest :=
   let old := (getKey its (Key.i pos)).getD (.leaf .none)
-  (f.mapAt m.id (fun m' xs => let ys := removeAt pos xs; if cfg.reindexOnMutate then reindex m' ys else ys)).addRoot old
+  (f.mapAt m.id (fun m' xs => let ys := removeAt pos xs; if cfg.reindexOnMutate then reindex m' ys else ys)).addRoot
+    (if cfg.detachOnRemove then detachFrom .list old else old)
 
 /-! ### Operations -/
 
@@ -304,7 +322,7 @@ def slicePrepare (cfg : Cfg) (m : Meta) : Forest → Nat → List VE → Forest 
       let rest := slicePrepare cfg m f (i + 1) vs
       (rest.1, v :: rest.2)
     else
-    let r := evalVE cfg f (some m.id) false (m.path ++ [Key.i i]) v
+    let r := evalVE cfg f none (some m.id) false m.part (m.path ++ [Key.i i]) v
     match r.2 with
     | .leaf a =>
       let rest := slicePrepare cfg m r.1 (i + 1) vs
@@ -328,7 +346,7 @@ def step (cfg : Cfg) (f : Forest) (notifyOn : Bool) : Op → Res
   | .new v =>
     match v with
     | .node .. =>
-      let r := evalVE cfg f none false [] v
+      let r := evalVE cfg f none none false false [] v
       ⟨r.1.addRoot r.2, .ok⟩
     | _ => ⟨f, .skip⟩
   | .clone t deep =>
@@ -385,7 +403,7 @@ def step (cfg : Cfg) (f : Forest) (notifyOn : Bool) : Op → Res
   | .lClear t =>
     match f.find? t with
     | some (.node m its) =>
-      if m.sealed then ⟨f, .err .perm⟩ else ⟨dropAll f t its, .ok⟩
+      if m.sealed then ⟨f, .err .perm⟩ else ⟨dropAll cfg f m its, .ok⟩
     | _ => ⟨f, .skip⟩
   | .lSort t ranks rev =>
     match f.find? t with
@@ -401,7 +419,7 @@ def step (cfg : Cfg) (f : Forest) (notifyOn : Bool) : Op → Res
     match f.find? t with
     | some (.node m its) =>
       if n ≤ 0 then
-        (if m.sealed then ⟨f, .err .perm⟩ else ⟨dropAll f t its, .ok⟩)
+        (if m.sealed then ⟨f, .err .perm⟩ else ⟨dropAll cfg f m its, .ok⟩)
       else
         if m.sealed then ⟨f, .err .perm⟩ else
         let one : List VE := its.map (fun kv => match kv.2 with
@@ -416,7 +434,6 @@ def step (cfg : Cfg) (f : Forest) (notifyOn : Bool) : Op → Res
       if m.sealed then ⟨f, .err .perm⟩ else
       if !m.accW then ⟨f, .err .perm⟩ else
       -- glue guarantees 0 ≤ start ≤ stop ≤ len, stp ≥ 1 and, for stp > 1, matching sizes
-      let before := f.nextId
       let p := slicePrepare cfg m f 0 vs
       let size : Nat := ((stop - start + stp - 1) / stp).toNat
       let repl : List (Bool × VE) :=
@@ -426,14 +443,9 @@ def step (cfg : Cfg) (f : Forest) (notifyOn : Bool) : Op → Res
            else p.2.map (fun v => (false, v)) ++ List.replicate (size - p.2.length) (false, VE.atom .missing))
         else p.2.map (fun v => (false, v))
       let r := sliceLoop cfg t start stp p.1 0 repl false
-      -- formalized values that were created by this call and are stored nowhere are garbage
-      let gc (g : Forest) : Forest :=
-        { g with roots := g.roots.filter (fun r => match r with
-            | .node rm _ => !(before ≤ rm.id && rm.parent == some m.id)
-            | _ => true) }
       match r with
-      | .error e => ⟨gc p.1, .err e⟩
-      | .ok (f', upd) => ⟨gc (if notifyOn && upd then notify f' [m.id] else f'), .ok⟩
+      | .error e => ⟨p.1, .err e⟩
+      | .ok (f', upd) => ⟨if notifyOn && upd then notify f' [m.id] else f', .ok⟩
     | _ => ⟨f, .skip⟩
   | .dPop t k =>
     match f.find? t with
@@ -446,12 +458,13 @@ def step (cfg : Cfg) (f : Forest) (notifyOn : Bool) : Op → Res
       if m.sealed then ⟨f, .err .perm⟩ else
       match its.getLast? with
       | none => ⟨f, .err .key⟩
-      | some (k, c) => ⟨(f.mapAt t (fun _ xs => eraseKey k xs)).addRoot c, .ok⟩
+      | some (k, c) => ⟨(f.mapAt t (fun _ xs => eraseKey k xs)).addRoot
+          (if cfg.detachOnRemove then detachFrom .dict c else c), .ok⟩
     | _ => ⟨f, .skip⟩
   | .dClear t =>
     match f.find? t with
     | some (.node m its) =>
-      if m.sealed then ⟨f, .err .perm⟩ else ⟨dropAll f t its, .ok⟩
+      if m.sealed then ⟨f, .err .perm⟩ else ⟨dropAll cfg f m its, .ok⟩
     | _ => ⟨f, .skip⟩
   | .dSetDefault t k v =>
     match f.find? t with
@@ -478,19 +491,35 @@ def sortByIdx (key : Tree → Nat) : List Tree → List Tree
   | [] => []
   | x :: xs => insertByIdx key x (sortByIdx key xs)
 
-def normalizeRoots (before : Forest) (after : Forest) : Forest :=
+def isCreation : Op → Bool
+  | .new _ | .clone _ _ => true
+  | _ => false
+
+/-- `keepFresh`: the call returns a new object to the caller (`new`, `clone`). Otherwise a root
+whose node was created during the call is an object nobody holds (a copy that was stored and
+replaced again, an unused formalized value of a slice assignment): garbage. -/
+def normalizeRoots (before : Forest) (after : Forest) (keepFresh : Bool) : Forest :=
   let oldRootIds := before.roots.filterMap Tree.id?
   let pre := before.ids
   let isOld (r : Tree) : Bool := match r.id? with
     | some i => oldRootIds.contains i
     | none => false
-  let key (r : Tree) : Nat := match r.id? with
+  let fresh (r : Tree) : Bool := match r.id? with
+    | some i => before.nextId ≤ i
+    | none => false
+  -- position before the step of the first pre-existing node inside `r`
+  let firstOld (r : Tree) : Nat := (r.ids.map (fun i => pre.idxOf i)).foldl min pre.length
+  let key (r : Tree) : Nat := if fresh r then pre.length + 1 + firstOld r else match r.id? with
     | some i => pre.idxOf i
     | none => pre.length
-  { after with roots := after.roots.filter isOld ++ sortByIdx key (after.roots.filter (fun r => !isOld r)) }
+  -- a fresh root that holds a pre-existing node is still reachable (through `sym_parent`)
+  let held (r : Tree) : Bool := r.ids.any (fun i => decide (i < before.nextId))
+  let surviving := oldRootIds.filterMap (fun i => after.roots.find? (fun r => r.id? == some i))
+  let others := after.roots.filter (fun r => !isOld r && (keepFresh || !fresh r || held r))
+  { after with roots := surviving ++ sortByIdx key others }
 
 def stepN (cfg : Cfg) (f : Forest) (notifyOn : Bool) (op : Op) : Res :=
   let r := step cfg f notifyOn op
-  { r with forest := normalizeRoots f r.forest }
+  { r with forest := normalizeRoots f r.forest (isCreation op) }
 
 end Pg.Sym
